@@ -12,7 +12,7 @@ def main(tier: str, seed: int) -> int:
             "weights in different groups), all answer sets; set equality of (answer set on IN u OUT, costs). "
             "non-trivial = inline changed the program and the outcome varies over instances")
     bounds = {"helpers": len(fam.HELPERS), "users": len(fam.USERS), "direct": len(fam.DIRECT), "functions": len(fam.FUNS)}
-    return generic.family_main(PROP, tier, seed, fam.jobs(tier), rule, bounds)
+    return generic.family_main(PROP, tier, seed, generic.with_variants(fam.jobs(tier), tier), rule, dict(bounds, variants=True))
 
 
 def replay(path: str) -> int:
